@@ -39,6 +39,8 @@ func TestMain(m *testing.M) {
 			"then decodes: attributes and indices bit-equal to the float32/integer image of the descriptor, node TRS, instance accessors, lights, same mesh pointer => same accessors, same texture pointer => same texture, " +
 			"materials: every model's primitive references a material whose resolved content (textures followed to image URI, sampler values and texture transform; glTF defaults applied) is its own, distinct contents never share an entry, deep-equal materials share one. " +
 			"Non-trivial = at least 2 emitted models and (a mesh pointer shared by two models, or two models whose materials are the same pointer / equal by value, or a mesh with an odd index count). Distinct by case JSON. " +
+			"Sub-check index-count-sweep (exhaustive along the size axis): EVERY triangle count 1..1500 (quick) / 1..9000 (thorough) once: one model, a welded grid mesh of exactly that many triangles (about half as many vertices, positions only), " +
+			"written as .glb and for every 16th count also as .gltf, judged by the same oracle (a block-wise writer that mishandles element counts that are exact multiples of its block size cannot hide between sampled sizes); every case non-trivial, distinct by (count, container). " +
 			"Sub-check concurrent-writers: every concurrent-* case (2-5 bundled cases run at the same time after each passed alone) is non-trivial.",
 		Assumptions: []string{
 			"attribute values are finite and within float32 range (glTF forbids NaN/Inf; the writer narrows to float32); Joint values are integers 0..255 (stored as unsigned bytes)",
@@ -68,6 +70,9 @@ type BigDesc struct {
 type MeshSlot struct {
 	D   *gen.MeshDesc `json:",omitempty"`
 	Big *BigDesc      `json:",omitempty"`
+	// Tris > 0: recipe of the index-count sweep, a welded grid mesh with exactly Tris triangles
+	// (gridDesc); the replay file carries the count, not the arrays.
+	Tris int `json:",omitempty"`
 }
 
 type TRSDesc struct {
@@ -130,7 +135,33 @@ func (b BigDesc) expand() gen.MeshDesc {
 	return d
 }
 
+// gridDesc is a (w+1) x (w+1) vertex grid, w = ceil(sqrt(tris/2)), whose cells are split into two
+// triangles each, row by row, until exactly tris triangles exist: about tris/2 vertices shared by
+// up to six triangles (trailing vertices may be unreferenced). Positions only, multiples of 1/8
+// (exact in float32), no two vertices alike.
+func gridDesc(tris int) gen.MeshDesc {
+	w := int(math.Ceil(math.Sqrt(float64(tris) / 2)))
+	d := gen.MeshDesc{Topo: int(modeling.TriangleTopology), N: (w + 1) * (w + 1), V3: map[string][][3]gen.F{}}
+	d.Idx = make([]int, 0, 3*tris)
+	for q := 0; len(d.Idx) < 3*tris; q++ {
+		a := q/w*(w+1) + q%w
+		d.Idx = append(d.Idx, a, a+1, a+w+2)
+		if len(d.Idx) < 3*tris {
+			d.Idx = append(d.Idx, a, a+w+2, a+w+1)
+		}
+	}
+	pos := make([][3]gen.F, d.N)
+	for i := range pos {
+		pos[i] = [3]gen.F{gen.F(float64(i%(w+1)) / 8), gen.F(float64(i/(w+1)) / 8), gen.F(float64(i*7%13-6) / 8)}
+	}
+	d.V3[modeling.PositionAttribute] = pos
+	return d
+}
+
 func (s MeshSlot) desc() gen.MeshDesc {
+	if s.Tris > 0 && s.Tris <= 1<<20 {
+		return gridDesc(s.Tris)
+	}
 	if s.Big != nil && s.Big.N > 0 && s.Big.NIdx >= 0 && s.Big.Stride >= 0 {
 		return s.Big.expand()
 	}
@@ -739,7 +770,7 @@ func runCase(c Case, o *vh.Obs) *vh.Failure {
 	}
 	isBig := false
 	for _, s := range c.Meshes {
-		if s.Big != nil {
+		if s.Big != nil || s.Tris > 0 { // procedurally described meshes: one container per case
 			isBig = true
 		}
 	}
@@ -1336,6 +1367,64 @@ func (p *parsed) readRefs(mi int) (map[string]int, error) {
 	return out, nil
 }
 
+// ---------------------------------------------------------------- index-count sweep
+
+// A writer that emits the indices (or any accessor) in blocks of K elements can lose its last block
+// exactly when the element count is a multiple of K; K is an implementation detail, so sampled
+// mesh sizes do not meet it. The sweep writes, for EVERY triangle count 1..N (N = 1500 quick, 9000
+// thorough: 27 000 indices), a scene with one model whose mesh is gridDesc(n), as .glb and, for
+// every 16th count, also as .gltf with an embedded base64 buffer; runCase judges it (container
+// and chunk lengths, bufferView/accessor ranges, index accessor count 3n and every index value,
+// every position, min/max ...).
+func sweepN() int {
+	if vh.Tier == "thorough" {
+		return 9000
+	}
+	return 1500
+}
+
+func sweepCase(n int, text bool) Case {
+	return Case{Text: text, Meshes: []MeshSlot{{Tris: n}}, Models: []ModelDesc{{Name: "sweep", Mesh: 0, Mat: -1}}}
+}
+
+func sweepCases() []Case {
+	var cs []Case
+	for n := 1; n <= sweepN(); n++ {
+		cs = append(cs, sweepCase(n, false))
+		if n%16 == 0 {
+			cs = append(cs, sweepCase(n, true))
+		}
+	}
+	return cs
+}
+
+var sweepBounds = []int{1500, 4000, 9000}
+
+func runSweep(c Case, o *vh.Obs) *vh.Failure {
+	if len(c.Meshes) != 1 || c.Meshes[0].Tris < 1 || c.Meshes[0].Tris > 1<<20 || len(c.Models) != 1 {
+		o.Class("out-of-domain")
+		return nil
+	}
+	n := c.Meshes[0].Tris
+	lo := 1
+	for _, hi := range sweepBounds {
+		if n <= hi {
+			o.Class(fmt.Sprintf("sweep/triangles-%d..%d", lo, hi))
+			break
+		}
+		lo = hi + 1
+	}
+	if n > sweepBounds[len(sweepBounds)-1] {
+		o.Class(fmt.Sprintf("sweep/triangles-above-%d", sweepBounds[len(sweepBounds)-1]))
+	}
+	o.NonTrivial()
+	f := runCase(c, o)
+	if f != nil {
+		f.Msg = fmt.Sprintf("one model, welded grid mesh of %d triangles (%d indices), container %s: %s", n, 3*n, map[bool]string{true: "gltf", false: "glb"}[c.Text], f.Msg)
+	}
+	return f
+}
+
 func TestC06(t *testing.T) {
 	vh.Note("sensitivity (scratch copy with the material-equality repair, one mutant at a time, quick tier, all caught): vec2 byteLength too long / too short; vec3 min/max swapped / max not updated; indices always 16-bit; " +
 		"mesh table keyed without the material index; GLB total length without the BIN chunk header; one pad byte after / inside an odd 16-bit index view and after every vec4 view (reported as bufferview-misaligned/unexplained); " +
@@ -1343,6 +1432,13 @@ func TestC06(t *testing.T) {
 		"material table never matching; base64 payload truncated; point mode omitted; joints written as float; each of the repair's comparisons reverted. A correct alignment repair (pad to 4 bytes after the indices) passes without the known finding.")
 	vh.Drive(t, vh.Spec[Case]{Name: "scene", Quick: 60000, Thorough: 1200000, Gen: genCase, Run: runCase})
 	vh.Drive(t, vh.Spec[vh.Conc[Case]]{Name: "concurrent-writers", Quick: 1600, Thorough: 40000, Gen: vh.GenConc(genCase), Run: vh.RunConc(runCase), Repeat: 20})
+	vh.Enumerate(t, vh.Spec[Case]{Name: "index-count-sweep", Run: runSweep,
+		Key: func(c Case) string {
+			if len(c.Meshes) != 1 {
+				return "out-of-domain"
+			}
+			return fmt.Sprint(c.Meshes[0].Tris, c.Text)
+		}}, sweepCases())
 }
 
 func FuzzC06(f *testing.F) {
